@@ -50,6 +50,14 @@ def run(tier, seed, replay=None):
                     kis = [ki for ki, x in enumerate(m_.row) if x is not None]
                     m_.redundant = {rng.choice(kis): (rng.random() < 0.5, rng.random() < 0.5)}
         bases.append(p)
+    for _ in range(3 if tier == "quick" else 40):
+        # every run: families whose key parameter is relaxed by exactly ONE member, inline in the base presentation — the placement
+        # variants move the `?Sized` to the where-clause (seeded change C06f)
+        p = g.unsized_plan(d7=False)
+        for f_ in p.families:
+            for mi_, m_ in enumerate(f_.members):
+                m_.unsized_where = False
+        bases.append(p)
     allv, owner = [], []
     for bi, b in enumerate(bases):
         allv.append(b)
